@@ -131,6 +131,13 @@ def data():
                                     Func("od", [("n", "int")], "bool", [If(Bin("==", V("n"), I(0)), [Ret(B(False))], []), Ret(Call("ev", Bin("-", V("n"), I(1))))])])
     out["string_ops"] = prog([Let("s", "string", Bin("+", S("ab"), S("cd"))), Println(V("s")), Println(Call("str_length", V("s"))),
                               Println(Bin("==", V("s"), S("abcd"))), Println(Bin("!=", V("s"), S("abcd"))), Println(Call("int_to_string", I(-42))), Print(S("x")), Print(I(1)), Println(S(""))])
+    out["float_compare"] = prog([Let("a", "float", F(160)), Let("b", "float", F(128)), Println(Bin(">", V("a"), V("b"))), Println(Bin("<=", V("a"), F(160))),
+                                 Println(Bin("==", V("b"), F(128))), Println(Bin("!=", V("a"), V("b"))), Println(Bin("<", V("a"), F(161))),
+                                 Println(Call("fmaxi", V("a"), V("b")))],
+                                [Func("fmaxi", [("x", "float"), ("y", "float")], "int", [If(Bin(">=", V("x"), V("y")), [Ret(I(1))], []), Ret(I(2))])])
+    out["float_in_struct_and_array"] = prog([Let("fs", "array<float>", ALit("float", [F(32), F(96), F(64)])), Let("k", "int", I(0), True),
+                                             ForIn("x", V("fs"), [If(Bin(">", V("x"), F(48)), [Set("k", Bin("+", V("k"), I(1)))], [])]), Println(V("k")),
+                                             Println(Bin("<", Call("at", V("fs"), I(0)), Call("at", V("fs"), I(2))))])
     out["if_expr_block"] = prog([Let("k", "int", I(5)), Println(IfX(Bin(">", V("k"), I(3)), I(1), I(2)))])
     out["exit_codes"] = prog([Println(S("bye"))], ret=300)
     out["assert_fail_runtime"] = prog([Println(S("before")), Assert(Bin("==", Call("t", I(1)), I(2))), Println(S("after"))])
